@@ -12,7 +12,8 @@ LEVEL = "exploration"
 BATCH = 16
 RULE = ("Fault-free sub-batch: every command shape (read count 1..125, write, write-multi over RTU/UDP and Modbus/TCP; "
         "AA55 device-info/runtime/settings blocks with payload length 0..255, AA55 register read, AA55 writes) x "
-        "payload class {all-00, all-FF, walking, seeded random, high-sum} x comm address x optional trailing bytes "
+        "payload class {all-00, all-FF, walking, seeded random, high-sum} x comm address x inverter addressed by IP "
+        "literal or by host name x optional trailing bytes "
         "after an RTU frame: the peer's conforming answer must be accepted on the FIRST transmission, the request must "
         "complete at the delivery instant and response_data() must equal the served payload exactly (also when "
         "trailing bytes were appended: they do not belong to the payload).  Benign sub-batch: the same under loss within the retry budget, in-time delay, two "
@@ -148,7 +149,7 @@ def make_case(tier, seed, index):
                            "what": {"whole": 1}})
     case = {"kind": "random", "framing": fr, "cmd": cmd, "pclass": cl, "pseed": rnd.randrange(1 << 16),
             "comm_addr": rnd.randrange(256), "trailing": trailing, "timeout": tau, "retries": r,
-            "keep_alive": rnd.random() < 0.5, "faults": faults}
+            "keep_alive": rnd.random() < 0.5, "faults": faults, "by_name": rnd.random() < 0.25}
     if fr in ("rtu", "tcp") and not faults and not trailing and rnd.random() < 0.4:
         # history: an EARLIER read on the same object lost the tail of its fragmented answer (and succeeded on the
         # retry); the missing tail had exactly the length of this request's conforming answer
@@ -172,6 +173,8 @@ def simplify(case):
         out.append(dict(case, keep_alive=False))
     if case["trailing"]:
         out.append(dict(case, trailing=""))
+    if case.get("by_name"):
+        out.append(dict(case, by_name=False))
     return out
 
 
@@ -224,7 +227,10 @@ def run_case(case):
     default = {"k": "mut", "ops": [["extend", case["trailing"]]]} if case["trailing"] else {"k": "ok"}
     world.net.begin_script(faults, default)
     world.net.add_device(C.HOST, C.port_of(tr), dev)
-    proto = C.make_protocol(tr, tau, r, case["keep_alive"], case["comm_addr"])
+    world.net.add_host(C.HOSTNAME, C.HOST)
+    # a quarter of the seeded cases address the inverter by host name: answers then come from the numeric address
+    proto = C.make_protocol(tr, tau, r, case["keep_alive"], case["comm_addr"],
+                            host=C.HOSTNAME if case.get("by_name") else C.HOST)
     state = {}
 
     async def main():
